@@ -5,8 +5,17 @@ import os, sys, json, subprocess, shutil, time, glob, re
 VERIF = os.path.dirname(os.path.dirname(os.path.abspath(__file__)))
 REPO = os.environ.get('VERIF_REPO', '/repo')
 
-def mutant_list():
+def mutant_list(benign=False):
     out = []
+    if benign:
+        # negative controls: behaviour-preserving changes (written by independent sub-agents told to keep the property true);
+        # every listed check must stay quiet on them
+        for d in sorted(glob.glob(os.path.join(VERIF, 'benign', '*'))):
+            meta = os.path.join(d, 'meta.json'); patch = os.path.join(d, 'patch.diff')
+            if os.path.exists(meta) and os.path.exists(patch):
+                m = json.load(open(meta))
+                out.append(dict(name='benign/' + os.path.basename(d), patch=patch, props=m.get('checks') or [m['property']], expect='clean'))
+        return out
     for p in sorted(glob.glob(os.path.join(VERIF, 'mutants', '*.diff'))):
         props = []
         for line in open(p):
@@ -45,12 +54,13 @@ def run_one(m, tier='quick', with_tests=False, scale=None):
         shutil.rmtree(base, ignore_errors=True)
 
 def main(argv):
-    tier = 'quick'; with_tests = False; names = []
+    tier = 'quick'; with_tests = False; names = []; benign = False
     for a in argv:
         if a == '--thorough': tier = 'thorough'
         elif a == '--tests': with_tests = True
+        elif a == '--benign': benign = True
         else: names.append(a)
-    ms = [m for m in mutant_list() if not names or any(n in m['name'] for n in names)]
+    ms = [m for m in mutant_list(benign) if not names or any(n in m['name'] for n in names)]
     missed = 0; table = []; table_all = []
     for m in ms:
         r = run_one(m, tier, with_tests)
@@ -58,14 +68,16 @@ def main(argv):
         if 'results' not in r: print('%-48s %s %s' % (r['name'], r['status'], r.get('detail', ''))); missed += 1; continue
         any_det = any(x['detected'] for x in r['results'].values())
         exp = m.get('expect', 'detected')
-        ok = any_det if exp == 'detected' else True
+        ok = any_det if exp == 'detected' else (all(x['exit'] == 0 for x in r['results'].values()) if exp == 'clean' else True)
         if not ok: missed += 1
         for prop, x in r['results'].items():
-            print('%-48s %s %-9s exit=%d %5.1fs %s %s' % (r['name'], prop, 'DETECTED' if x['detected'] else 'missed', x['exit'], x['wall_s'], r.get('tests', ''), '; '.join(x['classes'])[:150]), flush=True)
+            print('%-48s %s %-9s exit=%d %5.1fs %s %s' % (r['name'], prop, ('ALARM' if x['exit'] != 0 else 'quiet') if exp == 'clean' else ('DETECTED' if x['detected'] else 'missed'), x['exit'], x['wall_s'], r.get('tests', ''), '; '.join(x['classes'])[:150]), flush=True)
             if x['tail']: print('    ' + x['tail'].replace('\n', '\n    '))
         table.append(r)
     try: shutil.rmtree(os.path.join(os.environ.get('TMPDIR', '/var/tmp'), 'verif-mut-%d' % os.getpid()), ignore_errors=True)
     except Exception: pass
+    if benign:
+        print('benign controls: %d run, %d raised an alarm' % (len(ms), missed)); return 0 if missed == 0 else 1
     if not names:
         # full run: refresh the table that DESIGN.md refers to
         with open(os.path.join(VERIF, 'mutants', 'RESULTS.md'), 'w') as f:
